@@ -1770,7 +1770,7 @@ fn ct_set_timer(secs: i64) {
 /// of every instruction executed from there up to (excluding) the second `ct_marker` entry into `seq`,
 /// then let the child run to its exit. Ok(single-steps spent before the region, exit description).
 /// On Err the child may still exist (the caller kills and reaps it).
-fn ct_trace_child(pid: libc::pid_t, marker: u64, seq: &mut Vec<u64>) -> Result<u64, String> {
+fn ct_trace_child(pid: libc::pid_t, marker: u64, max_steps: u64, seq: &mut Vec<u64>) -> Result<u64, String> {
     let deadline = std::time::Instant::now() + std::time::Duration::from_secs(CT_CHILD_DEADLINE_SECS as u64);
     let mut spurious = 0;
     loop {
@@ -1802,9 +1802,9 @@ fn ct_trace_child(pid: libc::pid_t, marker: u64, seq: &mut Vec<u64>) -> Result<u
     let mut pre: u64 = 0;
     let mut inside = false;
     loop {
-        if total >= CT_MAX_STEPS {
+        if total >= max_steps {
             return Err(format!(
-                "step cap of {CT_MAX_STEPS} single-steps exceeded ({} of them inside the measured region)",
+                "step cap of {max_steps} single-steps exceeded ({} of them inside the measured region)",
                 seq.len()
             ));
         }
@@ -2000,10 +2000,60 @@ fn ct_locate(addr: u64) -> String {
     q.out.unwrap_or_else(|| format!("?+{addr:#x}"))
 }
 
-fn ct_trace_hash(seq: &[u64]) -> String {
+/// One PT_LOAD segment of a loaded object: [start, end) in memory, the object's load bias and its
+/// ordinal in the loader's list (0 = the executable).
+struct CtSeg {
+    start: u64,
+    end: u64,
+    bias: u64,
+    obj: u64,
+}
+
+unsafe extern "C" fn ct_segs_cb(info: *mut libc::dl_phdr_info, _size: libc::size_t, data: *mut libc::c_void) -> libc::c_int {
+    let (segs, next_obj) = &mut *(data as *mut (Vec<CtSeg>, u64));
+    let info = &*info;
+    if !info.dlpi_phdr.is_null() {
+        for i in 0..info.dlpi_phnum as usize {
+            let ph = &*info.dlpi_phdr.add(i);
+            if ph.p_type == libc::PT_LOAD {
+                let start = (info.dlpi_addr as u64).wrapping_add(ph.p_vaddr as u64);
+                segs.push(CtSeg {
+                    start,
+                    end: start.wrapping_add(ph.p_memsz as u64),
+                    bias: info.dlpi_addr as u64,
+                    obj: *next_obj,
+                });
+            }
+        }
+    }
+    *next_obj += 1;
+    0
+}
+
+fn ct_segments() -> Vec<CtSeg> {
+    let mut acc: (Vec<CtSeg>, u64) = (Vec::new(), 0);
+    // SAFETY: the callback only reads the loader's program header tables and writes to `acc`.
+    unsafe { libc::dl_iterate_phdr(Some(ct_segs_cb), &mut acc as *mut (Vec<CtSeg>, u64) as *mut libc::c_void) };
+    acc.0
+}
+
+/// SHA-256 over the executed instruction addresses, each encoded position-independently as
+/// (object ordinal, address - load bias), 2 x u64 little endian; an address outside every loaded object
+/// is (u64::MAX, raw address). Same binary + same libc => same hash in every process, ASLR or not.
+fn ct_trace_hash(seq: &[u64], segs: &[CtSeg]) -> String {
     let mut h = Sha256::new();
-    for rip in seq {
-        h.update(rip.to_le_bytes());
+    let mut last = 0usize;
+    for &rip in seq {
+        let hit = |s: &CtSeg| rip >= s.start && rip < s.end;
+        if !segs.get(last).is_some_and(hit) {
+            last = segs.iter().position(hit).unwrap_or(usize::MAX);
+        }
+        let (obj, off) = match segs.get(last) {
+            Some(s) => (s.obj, rip.wrapping_sub(s.bias)),
+            None => (u64::MAX, rip),
+        };
+        h.update(obj.to_le_bytes());
+        h.update(off.to_le_bytes());
     }
     hex::encode(h.finalize())
 }
@@ -2024,6 +2074,10 @@ fn op_ct_trace(c: &Value) -> R {
         mismatch: TimeDelta::new(mm_secs, mm_nanos).ok_or("mismatch is out of TimeDelta's range")?,
         script: Arc::new(parse_provider(c)?),
     };
+    let max_steps = u64_or(c, "max_steps", CT_MAX_STEPS)?;
+    if max_steps == 0 || max_steps > CT_MAX_STEPS {
+        return Err(format!("max_steps must be in 1..={CT_MAX_STEPS}"));
+    }
     log::set_max_level(log::LevelFilter::Off); // trace!() in the measured region must stay a no-op
     let _ = drain_logs();
 
@@ -2139,6 +2193,7 @@ fn op_ct_trace(c: &Value) -> R {
     }
 
     let marker = ct_marker as extern "C" fn(u64) -> u64 as usize as u64;
+    let segs = ct_segments();
     let mut reference: Option<Vec<u64>> = None;
     let mut first_fingerprint: Option<(u64, String)> = None;
     let mut all_equal = true;
@@ -2148,7 +2203,7 @@ fn op_ct_trace(c: &Value) -> R {
         let pid = kids.pids[i].0;
         seq.clear();
         ct_set_timer(CT_CHILD_DEADLINE_SECS);
-        let traced = ct_trace_child(pid, marker, &mut seq);
+        let traced = ct_trace_child(pid, marker, max_steps, &mut seq);
         ct_set_timer(0);
         if traced.is_err() {
             ct_kill(pid);
@@ -2180,7 +2235,7 @@ fn op_ct_trace(c: &Value) -> R {
         }
         match (&traced, &error) {
             (Ok(pre), None) => {
-                let hash = ct_trace_hash(&seq);
+                let hash = ct_trace_hash(&seq, &segs);
                 run_json["steps"] = json!(seq.len());
                 run_json["pre_steps"] = json!(pre);
                 run_json["trace_hash"] = json!(hash);
@@ -2225,7 +2280,7 @@ fn op_ct_trace(c: &Value) -> R {
     drop(kids);
     Ok(json!({
         "runs": runs, "all_equal": all_equal, "expected_signature": expected,
-        "marker": ct_locate(marker), "max_steps": CT_MAX_STEPS,
+        "marker": ct_locate(marker), "max_steps": max_steps,
     }))
 }
 
